@@ -1,3 +1,4 @@
+mod c02;
 mod c04;
 mod c05;
 mod c06;
@@ -34,6 +35,9 @@ fn main() {
     let r = match cmd.as_str() {
         "reflect" => reflect::run(&out),
         "c01" | "c03" | "c10" => storetrace::run(&out, seed, thorough, &cmd),
+        "c02" => c02::run(&out, seed, thorough),
+        "c02-child" => c02::child(&args),
+        "c02-make-golden" => c02::make_golden(&args),
         "c04" => c04::run(&out, seed, thorough),
         "c06" => c06::run(&out, seed, thorough),
         "c05" | "c08" => c05::run(&out, seed, thorough, &cmd),
